@@ -34,11 +34,11 @@ type Scn struct {
 	Alt          bool
 	DisableMouse bool
 	DisableKitty bool
-	KStack       []int  // terminal's kitty keyboard stack at start
-	Shape        int    // terminal's cursor style at start
-	NoDECRQSS    bool   // terminal does not answer the cursor-style query (then Shape is 0)
-	PreSet       []int  `json:",omitempty"` // gated modes already set when the session starts
-	TermID       string `json:",omitempty"` // XTVERSION name; "tmux 3.4" implements mode 2027 without reporting it
+	KStack       []int    // terminal's kitty keyboard stack at start
+	Shape        int      // terminal's cursor style at start
+	NoDECRQSS    bool     // terminal does not answer the cursor-style query (then Shape is 0)
+	PreSet       []int    `json:",omitempty"` // gated modes already set when the session starts
+	TermID       string   `json:",omitempty"` // XTVERSION name; "tmux 3.4" implements mode 2027 without reporting it
 	Cols, Rows   int      `json:",omitempty"` // terminal size (0: 20x5); the large-frame steps need a large one
 	Env          []string `json:",omitempty"` // NAME=value set for this session only (child process): the library's environment options
 	Steps        []string
